@@ -198,6 +198,14 @@ def differential(chunk=None):
         if got != "A\0z":
             bad += 1
             print("M5 mismatch", repr(got))
+        # M10: find with a concrete needle
+        hay = bytes([1, 2, 3, 2, 3, 4, 9, 2, 3, 4])
+        for needle in (b"\x02\x03\x04", b"\x02\x03", b"\x09", b"\x07", b"\x03\x04\x09\x02\x03\x04", b"\x01"):
+            with NoTracing():
+                sb = SymbolicBytes([pinned(c) if i in (1, 4, 8) else c for i, c in enumerate(hay)])
+            if deep_realize(sb.find(needle)) != hay.find(needle):
+                bad += 1
+                print("M10 mismatch", needle)
         # M8: ASCII upper / lower on every 7-bit character
         from crosshair.libimpl.builtinslib import LazyIntSymbolicStr
         for lo in range(0, 128, 16):
@@ -209,7 +217,7 @@ def differential(chunk=None):
                 print("M8 mismatch", lo)
     print("differential: %d comparisons, %d mismatches" % (n, bad))
     print("model hits:", chmodels.STATS["model_hits"], "fallbacks:", chmodels.STATS["model_fallbacks"])
-    must = {"M1", "M2", "M3", "M4", "M5", "M6", "M8"}
+    must = {"M1", "M2", "M3", "M4", "M5", "M6", "M8", "M10"}
     if not must <= set(chmodels.STATS["model_hits"]):
         print("some model was never exercised:", must - set(chmodels.STATS["model_hits"]))
         return False
